@@ -9,8 +9,10 @@
  *
  *   load <r> <path>            read the file into an exact-size heap block (so that ASan sees every
  *                              read past the end), g_typelib_new_from_memory, g_irepository_load_typelib
- *                              with flags 0.  No search path is involved as long as the script loads
- *                              dependencies first.
+ *                              with flags 0 (G_IREPOSITORY_LOAD_FLAG_LAZY when an optional third argument is 1).
+ *                              No search path is involved as long as the script loads dependencies first.
+ *   premiss <r> <ns> <hexkey>  g_irepository_find_by_gtype for a (registered on the fly) boxed GType of that name,
+ *                              meant to be issued BEFORE the namespace is loaded
  *   name <r> <ns> <hexkey>     g_typelib_get_dir_entry_by_name + g_irepository_find_by_name; also the
  *                              raw cmph value and _gi_typelib_hash_search's slot when the typelib has
  *                              a directory-index section
@@ -271,7 +273,7 @@ main (void)
               finish (out);
               continue;
             }
-          ns = g_irepository_load_typelib (repo, tl, 0, &error);
+          ns = g_irepository_load_typelib (repo, tl, (a2 != NULL && atoi (a2) == 1) ? G_IREPOSITORY_LOAD_FLAG_LAZY : 0, &error);
           if (ns == NULL)
             {
               g_string_append (out, ", \"ok\": false, \"stage\": \"load\", \"error\": ");
@@ -297,6 +299,24 @@ main (void)
                                     header->n_entries, header->n_local_entries,
                                     index_section (tl) ? "true" : "false");
           }
+          finish (out);
+          continue;
+        }
+
+      if (strcmp (cmd, "premiss") == 0 && a1 != NULL && a2 != NULL)
+        {
+          /* ask the repository for a GType BEFORE the namespace that defines it is loaded (the answer is
+           * remembered by the repository as "unknown" until something is loaded) */
+          char *key = unhex (a2);
+          GType t = key ? g_type_from_name (key) : 0;
+          if (key != NULL && t == 0 && registrable (key))
+            t = g_boxed_type_register_static (key, boxed_copy, boxed_free);
+          g_string_append (out, ", \"repo\": ");
+          if (t != 0)
+            put_info (out, g_irepository_find_by_gtype (repo, t));
+          else
+            g_string_append (out, "\"skipped\"");
+          g_free (key);
           finish (out);
           continue;
         }
